@@ -35,7 +35,7 @@ let default_facts = {
   f_branch = None; f_uptodate = false; f_picks = []; f_origs = []; f_news = []; f_noise = []; f_srcs = [];
   f_made = []; f_target = None; f_backward = true; f_dirty_after = false; f_stash_top = None;
   f_stash_before = O; f_stash_after = O; f_stash_new = None; f_squash_src = None; f_merged = true;
-  f_wl_pending = false; f_uncheckpointed = false; f_path_pending = false; f_detached = false; f_autostash_va = false;
+  f_wl_pending = false; f_uncheckpointed = false; f_path_pending = false; f_detached = false; f_autostash_va = false; f_msg_aborted = false;
   f_upstream_touches_pending = false }
 
 let noise_firing f name =
@@ -71,6 +71,7 @@ let set f (k, v) = match k with
   | "uncheckpointed" -> { f with f_uncheckpointed = b v } | "path_pending" -> { f with f_path_pending = b v }
   | "detached" -> { f with f_detached = b v }
   | "autostash_va" -> { f with f_autostash_va = b v }
+  | "msg_aborted" -> { f with f_msg_aborted = b v }
   | "upstream_touches_pending" -> { f with f_upstream_touches_pending = b v }
   | "noise" | "pre" -> f
   | s -> failwith ("field " ^ s)
